@@ -44,15 +44,21 @@
 (*  context of Send ends        CancelSend (RTk!Cancel)                    *)
 (*  pubsub (floodsub, StrictSign, channel_manager.go) read from a          *)
 (*  connection, signature check, forward to the other peers, hand to the   *)
-(*  subscription -> incomingMessageQueue                    NetRead        *)
+(*  subscription -> incomingMessageQueue (inbox)            NetRead        *)
 (*  channel.go incomingMessageWorker -> processPubsubMessage ->            *)
-(*  processContainerMessage (ENV!Verdict) -> deliver        Process        *)
+(*  processContainerMessage (ENV!Verdict) -> deliver        Process/Handle *)
 (*  channel.go deliver/Recv/removeHandler + WithRetransmissionSupport      *)
 (*                              BC!TrySend .. BC!Return (unchanged)        *)
 (*  adversary: own dials (any claimed identity, protocol id, challenge),   *)
 (*  injection of own / impostor / malformed / replayed / forged envelopes  *)
 (*                              AdvHandshake, AdvInject                    *)
 (*  chain: IsRecognized answers change, calls may fail     ChainChange     *)
+(*                                                                         *)
+(* A connection has two ends: cs[<<n, q>>] is node n's end of its          *)
+(* connection with q ("admitted" once n's constructor returned it, i.e.    *)
+(* after n's handshake side and n's firewall). A node writes as soon as    *)
+(* its own end exists (SendUp), what it writes is read once both ends      *)
+(* exist (Up); copies in flight are lost when the connection goes.         *)
 (*                                                                         *)
 (* Not modelled: TLS below the keep handshake (the attacker of HS sits on  *)
 (* the bare wire, which is stronger), the pubsub seen-cache (worst case:   *)
